@@ -37,7 +37,8 @@ claim('C06', 'proof',
       ['NaN/inf, dtype and length checks are scikit-learn check_array/check_X_y behaviour (assumed contract)'])
 claim('C18', 'proof',
       'every public constructor is executed symbolically through its MRO with opaque arguments; z3 proves self.p is p for every non-deprecated parameter, alias -> replacement + FutureWarning, '
-      'and that nothing but parameters is assigned. The NotFittedError guard is the `unfitted` case of every query-method contract (C01/C02/C04 units).',
+      'and that nothing but parameters is assigned. "Stored untouched" after use: the ownership / freshness obligations of the functions that consume array-valued parameters (LSML weights, prior / init arrays) '
+      'and "_check_preprocessor builds its indexer from the CURRENT parameter" (set_params on a used estimator) are part of this check. The NotFittedError guard is the `unfitted` case of every query-method contract (C01/C02/C04 units).',
       'trusted: npvc encoder; z3; get_params/set_params/clone are scikit-learn BaseEstimator introspection (assumed; they work iff every parameter is stored under its own name, the clause proved); pickle is CPython (bounded only)',
       'symbolic execution of the constructors with opaque (identity-only) arguments',
       ['get_params/set_params/clone are scikit-learn BaseEstimator introspection (assumed)', 'pickle is CPython (not verified)'])
